@@ -93,6 +93,20 @@ CLAIMED['C10'] = dict(
     note=NOTE_COMMON + 'memory-sync walk and wirevector_by_name consistency are modelled only as far as the generators reach.',
     technique='Lean 4 proof over translator-regenerated sanity rules + fault enumeration as correspondence')
 
+CLAIMED['C06'] = dict(
+    text='Lean theorems over impl models that compose the primitive nets as wire.py/corecircuits.py do: zero extension '
+         'keeps the value; + exact at max+1; - wraps modulo 2^(max+1); * exact at the matched widths; unsigned '
+         'comparisons; bitwise ops after zero-extension; concat MSB-first; every bit of a select is the indexed bit of '
+         'the operand (for any index list, hence any Python slice); the barrel shifter behind shift_*_logical/'
+         'arithmetic moves the data by the full amount for every data width and every shift-amount width. The real '
+         'operator netlists (all operators, helpers, constant-operand kinds) are evaluated in the Lean Spec model and '
+         'compared with exact integer arithmetic and with the Lean impl models, exhaustively for small width pairs and '
+         'on boundary/random values up to 130 bits. PARTIAL: theorems for sign extension and the signed_* helpers are '
+         'not yet proved (their models are tied and differentially checked).',
+    design='4 C06',
+    note=NOTE_COMMON + 'Python slice -> index list is CPython\'s own range(w)[item].',
+    technique='Lean 4 proof (induction over shift stages / index lists) + exhaustive small-width correspondence')
+
 NOT_YET = {}
 
 
